@@ -26,7 +26,10 @@ import (
 )
 
 func init() {
-	core.Register(&core.Check{ID: "C19", Level: "model_checking", Workers: -1, Run: c19Run, Replay: c19Replay})
+	core.Register(&core.Check{ID: "C19", Level: "model_checking", Workers: -1,
+		// the compiled-Go reference of the executed statements is built once by the parent (cached by content)
+		Prepare: func(c *core.Ctx) error { _, err := c19RefCorpus(c.Tier, c19TraceCorpus(c.Thorough())); return err },
+		Run:     c19Run, Replay: c19Replay})
 }
 
 var c19Cmds = []string{"continue", "finish", "next", "step"}
@@ -389,12 +392,15 @@ func c19Run(c *core.Ctx) {
 		return
 	}
 	depth := 6
-	c.Rule(fmt.Sprintf("programs = call chains of depth <= 3 over per-level shapes {plain, loop, defer, closure, earlyret, noreturn} with \"break\" statements at enumerated levels; "+
+	c.Rule(fmt.Sprintf("programs = call chains of depth <= 3 over per-level shapes {plain, loop, defer, closure, earlyret, earlyret2, noreturn, defers, recover, switch, labels, scopes} with \"break\" statements at enumerated levels; "+
+		"family 0, every program (all ordered pairs of shapes over a plain leaf, every shape as leaf; thorough: all triples): the full single-step trace T is compared with the simple statements executed by COMPILED GO "+
+		"(instrumented copy of the program: line, call depth, hook clock) - every executed statement must be a stop of T, in order, and T has no stop where no statement/header/clause is; "+
 		"per program: full single-step trace T; all command sequences over {continue, finish, next, step} of length %d (thorough: 7 for the two-level programs) without merging, entered both by DebugExpr and by a breakpoint hit in a plain Eval "+
 		"(commands spelled with abbreviations, empty-line repeat, surrounding blanks and interleaved inert commands); BFS over states (index into T, stale caller frames), one fresh interpreter per transition; "+
 		"oracle per transition = documented stop rule evaluated on T, plus output/follow-up/hidden-state transparency. "+
-		"non-trivial = distinct (program, entry, state, command) transitions that stopped at a statement (not at the end of the program)", depth))
+		"non-trivial = distinct (program, entry, state, command) transitions that stopped at a statement (not at the end of the program), plus distinct (program, line, depth, clock) statement executions of compiled Go checked against T", depth))
 	c.Assume("execution is deterministic, so a stop is identified by (kind, depth, IP, position, hook clock) in T",
+		"compiled Go (go1.23.5) running the instrumented copy of a program defines which simple statements are executed, in which order and at which call depth; stops of T on header/clause/closing-brace/func lines, at the entry of a called function literal, or inside the extent of the statement the frame is executing are tolerated and counted",
 		"frame activations are recovered from the depth profile of T (programs have no two same-depth calls in one statement)")
 	progs := c19Corpus(c.Thorough())
 	if c.Shard == 0 {
@@ -402,6 +408,31 @@ func c19Run(c *core.Ctx) {
 		c.Set("unmerged_depth", depth)
 	}
 	unit := 0
+	// ---- family 0: the single-step trace itself against the statements executed by compiled Go (c19_ref.go)
+	tprogs := c19TraceCorpus(c.Thorough())
+	refs, err := c19RefCorpus(c.Tier, tprogs)
+	if err != nil {
+		panic(err)
+	}
+	if c.Shard == 0 {
+		c.Set("trace_vs_compiled_go_programs", len(tprogs))
+	}
+	for _, p := range tprogs {
+		unit++
+		if !c.Mine(unit) {
+			continue
+		}
+		if c.Expired() {
+			break
+		}
+		m := c19BuildModel(p)
+		if m.broken != "" {
+			c.Violation("C19|single-step-trace|"+m.broken, fmt.Sprintf("program %s: single-stepping with the command step does not reach the end of the program (%s)", p.ID, m.broken),
+				c19Case{Prog: p.ID, Start: "debug", Cmds: nil, Decls: p.Decls})
+			continue
+		}
+		c19TraceUnit(c, m, refs[p.ID])
+	}
 	for _, p := range progs {
 		if c.Expired() {
 			break
@@ -586,6 +617,17 @@ func c19Replay(c *core.Ctx, raw json.RawMessage) {
 		c.Violation("C19|single-step-trace|"+m.broken, "single-stepping never reaches the end of the program: "+m.broken, cas)
 		return
 	}
+	if cas.Start == "trace" {
+		refs, err := c19RefCorpus("replay", []c19Prog{p})
+		if err != nil {
+			panic(err)
+		}
+		vs, _ := c19CheckTrace(m, refs[p.ID])
+		for _, v := range vs {
+			c.Violation(v.Sig, v.What, cas)
+		}
+		return
+	}
 	_, vs, _, _, _, _ := c19Exec(m, newC19World(p, true), cas.Start, cas.Cmds)
 	for _, v := range vs {
 		c.Violation(v.Sig, v.What, cas)
@@ -599,6 +641,23 @@ func c19Dump() {
 		panic("bad id")
 	}
 	fmt.Println(p.Decls)
+	if refs, err := c19RefCorpus("dump", []c19Prog{p}); err != nil {
+		fmt.Println("REFERENCE ERROR:", err)
+	} else {
+		ref := refs[p.ID]
+		fmt.Println("---- instrumented:")
+		fmt.Println(ref.Info.Instr)
+		fmt.Println("---- executed simple statements (compiled Go):", len(ref.Evs))
+		for _, e := range ref.Evs {
+			fmt.Printf("   line %d depth %d clock %d bp=%v %s\n", e.Line, e.Depth, e.Clock, e.BP, ref.Info.Simple[e.Line].Kind)
+		}
+		m := c19BuildModel(p)
+		vs, st := c19CheckTrace(m, ref)
+		fmt.Printf("---- trace check: %+v broken: %s\n", st, m.broken)
+		for _, v := range vs {
+			fmt.Println("   VERDICT", v.Sig, "::", v.What)
+		}
+	}
 	var cmds []string
 	json.Unmarshal([]byte(os.Getenv("C19_CMDS")), &cmds)
 	for _, start := range []string{"debug", "run"} {
